@@ -279,9 +279,13 @@ def run(ctx):
     # ---- R14.2b  mirrored push programs in the scope helpers ------------------------------------------------------------
     ctx.rule('R14.2b', 'in _ScopeContext.create/stack_*: the `back` arm and the forward arm push the same items in '
                        'mirrored order', 6)
-    for q in ('_ScopeContext.create', '_ScopeContext.stack_funcdef', '_ScopeContext.stack_ClassDef',
-              '_ScopeContext.stack_Lambda', '_ScopeContext.stack_arguments', '_ScopeContext.stack_comprehension'):
-        for fi in ctx.repo.funcs('fst_traverse', q):
+    from .c16 import scope_helper
+    units, seen_u = list(ctx.repo.funcs('fst_traverse', '_ScopeContext.create')), set()
+    for cname in ('FunctionDef', 'ClassDef', 'Lambda', 'arguments', 'comprehension'):      # the helpers _SCOPE_WALK_FUNCS names for these
+        units += scope_helper(ctx, cname)
+    for fi in units:
+        if fi.key not in seen_u:
+            seen_u.add(fi.key)
             check_mirror(ctx, 'R14.2b', fi)
 
 
@@ -493,8 +497,17 @@ def find_back_ifs(fn):
 
 
 def check_mirror(ctx, rid, fi, depth=0):
-    from ..inline import inlined
-    fnode, _ = inlined(ctx.repo, fi)             # a scope helper split into wrapper + worker is read as one function
+    from ..inline import inlined, simplify
+    fnode, n_inl = inlined(ctx.repo, fi)         # a scope helper split into wrapper + worker is read as one function
+    if n_inl:
+        # ... and a worker parametrised by data (direction literal, tuple of field names) is specialised for the call
+        def const_strs(e):
+            try:
+                v = ctx.ev.eval(e, dict(ctx.ev.env(fi.module)), fi.module)
+            except Exception:
+                return None
+            return list(v) if isinstance(v, (tuple, list)) and v and all(isinstance(x, str) for x in v) else None
+        fnode = simplify(fnode, const_strs)
     ifs = find_back_ifs(fnode)
     if not ifs:
         # the direction arms may live in the builders of a dispatch table {class: builder}: `TABLE.get(<root>.__class__)`
@@ -517,9 +530,11 @@ def check_mirror(ctx, rid, fi, depth=0):
                 check_mirror(ctx, rid, g, depth + 1)
             return
         raise AnalysisError(f'{fi.key}: no `if back:` arm found (scope helper changed shape)')
+    hps = [a_.arg for a_ in fnode.args.posonlyargs + fnode.args.args]
+    stackname = hps[2] if len(hps) == 3 else 'stack'          # helpers are (context, node, stack); create() builds a local `stack`
     for n in ifs:
-        a = push_program(n.body)
-        b = push_program(n.orelse)
+        a = push_program(n.body, stackname)
+        b = push_program(n.orelse, stackname)
         ok = mirror(a) == b
         detail = ''
         if not ok:
